@@ -131,6 +131,11 @@ def provider_families():
     S = corpus.Shape
     shapes = [
         S('prov-post-child', corpus.post_provider(5, parent=1), kind='prov'),
+        S('prov-post-root', corpus.post_provider(5, parent=None),
+          kind='prov'),
+        S('prov-post-root-1.0', corpus.post_provider(5, parent=None,
+                                                     version='1.0'),
+          kind='prov', version='1.0'),
         S('prov-move', corpus.put_provider(2, parent=None), kind='prov',
           wkw=dict(with_p3=True)),
         S('prov-move-to-p3', corpus.put_provider(2, parent=3), kind='prov',
